@@ -36,10 +36,14 @@ func senToken(t *rapid.T) string {
 	return b.String()
 }
 
+var senFuncNames = []string{"ISODate", "ObjectId", "NumberLong", "NumberDecimal", "fn", "x1"}
+var senFuncArgs = []string{`"2021-06-28T10:11:12Z"`, `"123"`, `1624875072123`, `"9223372036854775807"`, `abc`, `"1.5"`, `[1 2]`, `null`}
+
 type senGen struct {
 	t        *rapid.T
 	ext      bool // parser extensions used (outside sen.md)
 	allowExt bool
+	nested   int
 }
 
 func (g *senGen) sep(b *strings.Builder) {
@@ -106,6 +110,21 @@ func (g *senGen) value(b *strings.Builder, depth int) {
 	if depth <= 0 {
 		max = 6
 	}
+	if g.allowExt && g.nested > 0 && sim.Intn(g.t, 12, "func") == 11 {
+		// token function (parser extension): name(args...), only inside a container
+		g.ext = true
+		b.WriteString(senFuncNames[sim.Intn(g.t, len(senFuncNames), "fname")])
+		b.WriteByte('(')
+		n := sim.Intn(g.t, 3, "nargs")
+		for i := 0; i < n; i++ {
+			if i > 0 {
+				b.WriteString([]string{" ", ", ", ","}[sim.Intn(g.t, 3, "argsep")])
+			}
+			b.WriteString(senFuncArgs[sim.Intn(g.t, len(senFuncArgs), "farg")])
+		}
+		b.WriteByte(')')
+		return
+	}
 	switch sim.Intn(g.t, max, "svkind") {
 	case 0:
 		b.WriteString(Number(g.t))
@@ -123,12 +142,14 @@ func (g *senGen) value(b *strings.Builder, depth int) {
 		b.WriteByte('[')
 		g.ows(b)
 		n := sim.Intn(g.t, 5, "alen")
+		g.nested++
 		for i := 0; i < n; i++ {
 			if i > 0 {
 				g.sep(b)
 			}
 			g.value(b, depth-1)
 		}
+		g.nested--
 		g.ows(b)
 		b.WriteByte(']')
 	default:
@@ -149,7 +170,9 @@ func (g *senGen) value(b *strings.Builder, depth int) {
 			g.ows(b)
 			b.WriteByte(':')
 			g.ows(b)
+			g.nested++
 			g.value(b, depth-1)
+			g.nested--
 		}
 		g.ows(b)
 		b.WriteByte('}')
